@@ -128,7 +128,8 @@ func (this *Conn) NodeIds() []uint64 {
 	return ids
 }
 
-func (this *Conn) AddNode(id uint64, address string) {
+// Returns true if the node was not known before.
+func (this *Conn) AddNode(id uint64, address string) bool {
 	this.addressesMu.Lock()
 	defer this.addressesMu.Unlock()
 
@@ -136,10 +137,22 @@ func (this *Conn) AddNode(id uint64, address string) {
 		// The membership entry that bootstraps the cluster carries no address.
 		// Recording it would shadow the address the node announces later on
 		// (announcements for a known id are ignored below).
-		return
+		return false
 	}
 
-	delete(this.addressHints, id)
+	if hint, hinted := this.addressHints[id]; hinted {
+		delete(this.addressHints, id)
+		if hint != address {
+			// A connection dialed on the strength of the hint leads to an address the
+			// node does not have (any more)
+			this.connsMu.Lock()
+			if conn, exists := this.conns[id]; exists {
+				conn.Close()
+				delete(this.conns, id)
+			}
+			this.connsMu.Unlock()
+		}
+	}
 	if _, exists := this.addresses[id]; !exists {
 		this.addresses[id] = address
 		this.sendNodesChangeNotification(&nodesChange {
@@ -147,7 +160,9 @@ func (this *Conn) AddNode(id uint64, address string) {
 			NodeId: id,
 		})
 		this.log.Infof("Conn: Added node: %16x", id)
+		return true
 	}
+	return false
 }
 
 // Remembers where a node can be reached without making it a member. Another member's
